@@ -139,6 +139,11 @@ def run_task(task: dict) -> dict:
             bad_here = 0
             with core.wall_backstop(120):
                 for k in cuts:
+                    if bad_here >= 12:
+                        # this instance has shown the violation often enough; more cuts only cost time
+                        # (a looping reader burns its whole call budget on every one of them)
+                        stats.inc("instances_cut_short_after_12_violations")
+                        break
                     for kind in KINDS:
                         chunks = None
                         if kind == "buffered":
